@@ -13,8 +13,8 @@ RULE = ("inputs: 46 generated seed files (OPL, XML, o5m/o5c, PBF; written by spe
         "segmentation that falls into two families is run once, so every (path, input, segmentation) is distinct. Delivery paths: "
         "'direct' = the format's real Parser run synchronously on a pre-filled input queue holding exactly these pieces; 'reader' = a "
         "full Reader fed by a chunking Decompressor registered in CompressionFactory; 'pieces'/'shortread' = real plain/gzip/bzip2 "
-        "files read with Decompressor::input_buffer_size in {1,2,3,5,7,64} (hook H5) and plain/PBF files whose read(2) returns short "
-        "at every offset. Oracle: header text + canonical object dump + 'eof' or exception type and message equal to the result for "
+        "files read with Decompressor::input_buffer_size in {1,2,3,5,7,64} (hook H5), plain/PBF files whose read(2) returns short "
+        "at every offset, and plain/PBF files whose every read(2) returns at most k bytes (k in {1,2,3,5,7,64,700,1500,2048,4095}). Oracle: header text + canonical object dump + 'eof' or exception type and message equal to the result for "
         "the same bytes in one piece on the same path (and the paths agree on the unsplit input). Non-trivial = the parser really got "
         ">= 2 pieces and at least one cut lies strictly inside a line / tag / data set / blob frame (structure computed by the "
         "harness's own walkers); for the file paths: the input is longer than the piece size / a read was actually shortened.")
@@ -75,6 +75,7 @@ def run(ctx):
     for k in KS:
         part("h06fd%d" % k, "pieces")
     part("h06fd", "shortread", "--scope", "subset")
+    part("h06fd", "slowfd")
     part("h06", "split")
     if ctx.tier == "thorough":
         part("h06fd", "shortread", "--scope", "rest")
